@@ -35,7 +35,6 @@ type HarnessSpec struct {
 	AllowCuts  bool           `json:"allow_cuts"`
 	NoReplay   bool           `json:"no_replay"`
 	TimeoutSec int            `json:"timeout_s"`
-	SplitSl    int            `json:"split_slices"`  // case-split symbolic slice bounds when the backing array has at most this many cells
 	ForbidEv   []string       `json:"forbid_events"` // a path recording an event containing one of these substrings is a violation
 	Logic      string         `json:"logic"`         // e.g. QF_UFBV: lets z3 pick its bit-vector tactics (only for harnesses without Int terms)
 }
@@ -363,7 +362,6 @@ func (rc *runCtx) runSpec(specPath string, evPath string) int {
 		eng.maxBranches = pick(hs.MaxBranch, 600)
 		eng.logic = hs.Logic
 		eng.forbidEvents = hs.ForbidEv
-		eng.splitSlices = hs.SplitSl
 		eng.allMapOrders = hs.MapOrders
 		eng.ignoreGo = hs.IgnoreGo
 		eng.collisionFree = map[string]bool{}
